@@ -71,7 +71,7 @@ def main():
         "setup_cmd": "/venv/bin/python bin/vcheck setup",
         "hooks": {
             "guard": "SIEVELIB_VERIF",
-            "enable": "no hooks in /repo: for the duration of a run the simulator replaces the module attributes sievelib.managesieve.socket, sievelib.managesieve.ssl and sievelib.digest_md5.random (the seams the code already has)",
+            "enable": "no hooks in /repo: for the duration of a run the simulator replaces the module attributes sievelib.managesieve.socket, sievelib.managesieve.ssl and the randomness sources the client modules import (random / secrets / os.urandom / uuid) (the seams the code already has)",
             "baseline_off_cmd": "cd /repo && /venv/bin/python -m pytest -ra -q -p no:cacheprovider --timeout=900 --continue-on-collection-errors",
             "source_commits": [],
             "add_only": True,
